@@ -1,27 +1,89 @@
-// U8: the embedder-facing scheduler `Runtime::{run_n_steps, run_threads_round_robin,
-// finish_thread_turn, drain_new_threads, update_status_helper, try_get_main, main, top}` and
-// `VmGreenThread::{run_n_steps, validate, can_run, status, top, clear_pending_host_func,
-// maybe_gc}` -- REAL text of vm.rs -- driven over a contract-only nondeterministic `step()`.
+// U8: the embedder-facing scheduler `Runtime::{new, run_n_steps, run_threads_round_robin,
+// finish_thread_turn, drain_new_threads, update_status_helper, try_get_main, main, top,
+// iter_threads_mut}` and `VmGreenThread::{run_n_steps, validate, can_run, status, top,
+// clear_pending_host_func, maybe_gc}` -- REAL text of vm.rs -- driven over a contract-only
+// nondeterministic `step()` (u8_step below).
 //
-// REPRESENTATION INVARIANT RI(rt) assumed for the initial state and PROVED to be
-// established by Runtime::new and preserved by run_n_steps (obligation C11.sched.invariant):
+// Two back ends execute THIS file:
+//   * native-exhaustive (cfg u8_native): vm.rs compiled natively with the REAL std
+//     VecDeque/mpsc/Arc/Mutex, real maybe_gc, real Drop; `kani::choose` enumerates every
+//     choice sequence (native_kani.rs).  Used for every obligation.
+//   * kani/cbmc: only the harnesses that do not enter the scheduler loop (CBMC needs
+//     70 s for THREE iterations of a ONE-thread queue: Box<VmGreenThread> inside a queue).
+//
+// REPRESENTATION INVARIANT RI(rt), assumed for initial states, PROVED to hold after
+// Runtime::new and to be preserved by run_n_steps (obligation C11.sched.invariant):
 //   RI1  exactly one thread with `is_main` exists, either in `run_queue` or as
-//        `finished_main_thread` (never both); without the `ffi` feature the `new_threads`
-//        channel only ever carries non-main threads and is empty between calls
-//   RI2  finished_main_thread = Some(t)  =>  t.is_main && t.done && no pending host call && no error
-//   RI3  every t in run_queue: !t.done  (finish_thread_turn never re-queues a done thread,
-//        Runtime::new queues a fresh one), and at most one of
-//        {t.pending_host_func.is_some(), t.error.is_some()} holds, t.pending_ffi_call == None
-//        (every arm that sets a flag returns false immediately, and `can_run` refuses a
-//        thread with any flag set; CallForeign is `fail()` without the ffi feature)
-//   RI4  heaps are empty (maybe_gc is neutral) -- abstraction of this unit, GC is unit u6
+//        `finished_main_thread` (never both); the `new_threads` channel is empty between
+//        calls and (feature ffi off) only ever carries non-main threads
+//   RI2  finished_main_thread = Some(t) => t.is_main && t.done && no pending host call && no error
+//   RI3  every t in run_queue: !t.done (finish_thread_turn never re-queues a done thread,
+//        Runtime::new queues a fresh one); at most one of {pending_host_func.is_some(),
+//        error.is_some()} (every arm that sets a flag returns false at once and `can_run`
+//        refuses a thread with a flag set); pending_ffi_call == None (feature ffi off)
+//   RI4  heaps are empty (GC is unit u6's subject)
 //   RI5  every thread's `new_threads_sender` feeds rt.new_threads
-// Bounds: run_queue length 0..=3 at entry (one harness per length), budget <= 4, at most
-// one SpawnTask per run (so <= 4 queued threads).
+// Bounds: run_queue length 0..=3 at entry, budget <= 4, at most one SpawnTask per run.
 
 #[cfg(not(kani))]
 fn u8_step(_t: &mut VmGreenThread) -> bool {
     unreachable!()
+}
+
+// ---------------------------------------------------------------- back-end glue
+/// control choice in 0..n (exhaustive in both back ends)
+#[cfg(all(kani, not(u8_native)))]
+pub(crate) fn u8_pick(n: u8) -> u8 {
+    let x: u8 = kani::any();
+    kani::assume(x < n);
+    x
+}
+#[cfg(u8_native)]
+pub(crate) fn u8_pick(n: u8) -> u8 {
+    kani::choose(n as u32) as u8
+}
+/// error kind 0..4; natively only enumerated where some observer can see it (main thread)
+#[cfg(all(kani, not(u8_native)))]
+pub(crate) fn u8_kind(_relevant: bool) -> u8 {
+    u8_pick(4)
+}
+#[cfg(u8_native)]
+pub(crate) fn u8_kind(relevant: bool) -> u8 {
+    if relevant { u8_pick(4) } else { 0 }
+}
+/// host function id: data the scheduler never inspects (kani: any u16; native: {0, 65535})
+#[cfg(kani)]
+pub(crate) fn u8_eff() -> u16 {
+    kani::any()
+}
+/// a stack value: data (kani: any scalar; native: three representatives)
+#[cfg(all(kani, not(u8_native)))]
+pub(crate) fn u8_value() -> Value {
+    hs::any_scalar()
+}
+#[cfg(u8_native)]
+pub(crate) fn u8_value() -> Value {
+    match kani::choose(3) {
+        0 => Value(0, ValueTag::Int),
+        1 => Value(0x7fff_ffff_ffff_ffff, ValueTag::Int),
+        _ => Value(1, ValueTag::Bool),
+    }
+}
+#[cfg(all(kani, not(u8_native)))]
+pub(crate) fn u8_forget<T>(x: T) {
+    std::mem::forget(x) // keep drop glue out of the CBMC query
+}
+#[cfg(u8_native)]
+pub(crate) fn u8_forget<T>(x: T) {
+    drop(x) // native: run the real Drop impls
+}
+#[cfg(all(kani, not(u8_native)))]
+pub(crate) fn u8_empty_loc() -> VmErrorLocation {
+    VmErrorLocation { filename: "", lineno: 0, function_name: "" }
+}
+#[cfg(u8_native)]
+pub(crate) fn u8_empty_loc() -> VmErrorLocation {
+    VmErrorLocation { filename: String::new(), lineno: 0, function_name: String::new() }
 }
 
 /// ghost state of the step stub
@@ -29,6 +91,7 @@ fn u8_step(_t: &mut VmGreenThread) -> bool {
 pub(crate) struct U8Ghost {
     steps: u32,               // number of step() calls on any thread
     step_while_blocked: bool, // step() entered on a thread that is pending/errored/done
+    steps_after_main_stop: u32, // step() calls made after the main thread executed Stop
     main_stopped: bool,       // the main thread executed Stop
     main_top_set: bool,       // main's stack was non-empty when it executed Stop
     main_top: Value,          // ... and this was its last slot
@@ -39,9 +102,10 @@ pub(crate) struct U8Ghost {
     script: [u8; 8],
 }
 #[cfg(kani)]
-pub(crate) static mut U8G: U8Ghost = U8Ghost {
+const U8G0: U8Ghost = U8Ghost {
     steps: 0,
     step_while_blocked: false,
+    steps_after_main_stop: 0,
     main_stopped: false,
     main_top_set: false,
     main_top: Value(0, ValueTag::Int),
@@ -51,6 +115,46 @@ pub(crate) static mut U8G: U8Ghost = U8Ghost {
     script_on: false,
     script: [0; 8],
 };
+#[cfg(kani)]
+pub(crate) static mut U8G: U8Ghost = U8G0;
+#[cfg(kani)]
+pub(crate) fn u8_reset() {
+    unsafe { U8G = U8G0 };
+    #[cfg(u8_native)]
+    unsafe {
+        U8G.spawns_left = U8_NATIVE_SPAWNS;
+    }
+}
+// bounds: fixed under Kani (budget <= 4, <= 1 spawn); the native driver may raise them (thorough tier)
+#[cfg(u8_native)]
+static mut U8_NATIVE_MAXK: u8 = 4;
+#[cfg(u8_native)]
+static mut U8_NATIVE_SPAWNS: u8 = 1;
+#[cfg(u8_native)]
+pub fn u8_native_configure(maxk: u8, spawns: u8) {
+    assert!(maxk <= 8);
+    unsafe {
+        U8_NATIVE_MAXK = maxk;
+        U8_NATIVE_SPAWNS = spawns;
+    }
+}
+#[cfg(u8_native)]
+pub(crate) fn u8_maxk() -> u8 {
+    unsafe { U8_NATIVE_MAXK }
+}
+#[cfg(all(kani, not(u8_native)))]
+pub(crate) fn u8_maxk() -> u8 {
+    4
+}
+#[cfg(kani)]
+pub(crate) fn u8_arm_script(script: [u8; 8]) {
+    unsafe {
+        U8G.script_on = true;
+        U8G.script = script;
+        U8G.allow_spawn = false;
+        U8G.stack_ops = true;
+    }
+}
 
 #[cfg(kani)]
 pub(crate) fn u8_mk_err(kc: u8) -> Box<VmError> {
@@ -60,19 +164,21 @@ pub(crate) fn u8_mk_err(kc: u8) -> Box<VmError> {
         2 => VmErrorKind::IntegerOverflowUnderflow,
         _ => VmErrorKind::DivisionByZero,
     };
-    Box::new(VmError {
-        kind,
-        location: VmErrorLocation { filename: "", lineno: 0, function_name: "" },
-        trace: vec![],
-    })
+    Box::new(VmError { kind, location: u8_empty_loc(), trace: vec![] })
 }
 
-/// THE STEP CONTRACT (assumption of this unit).  Per-thread ghost step counter: `pc.0`.
-/// byte b: low 3 bits = outcome, bits 3..4 = error kind / stack sub-op.
+/// THE STEP CONTRACT (the assumption of this unit; what u1/u2/u3/u4a/u5 prove arm by arm).
+/// One call = one instruction.  Per-thread ghost step counter: `pc.0`.
+/// Outcome o: 0 ordinary instruction | 1 Stop | 2 runtime error (sub = kind) |
+///            3 HostFunc(eff) | 4 SpawnTask | 5 ordinary instruction with a stack effect (sub)
+/// In scripted mode (C10 split harness) o/sub come from U8G.script[pc & 7].
 #[cfg(kani)]
 fn u8_step(t: &mut VmGreenThread) -> bool {
     unsafe {
         U8G.steps += 1;
+        if U8G.main_stopped {
+            U8G.steps_after_main_stop += 1;
+        }
         if t.pending_host_func.is_some() || t.error.is_some() || t.done || t.pending_ffi_call.is_some() {
             U8G.step_while_blocked = true;
         }
@@ -80,8 +186,9 @@ fn u8_step(t: &mut VmGreenThread) -> bool {
     let idx = t.pc.0;
     t.pc.0 = idx + 1;
     let scripted = unsafe { U8G.script_on };
-    let b: u8 = if scripted { unsafe { U8G.script[(idx as usize) & 7] } } else { kani::any() };
-    match b & 7 {
+    let sb: u8 = unsafe { U8G.script[(idx as usize) & 7] };
+    let o: u8 = if scripted { sb & 7 } else { u8_pick(6) };
+    match o {
         1 => {
             // like Instr::Stop
             t.done = true;
@@ -101,12 +208,13 @@ fn u8_step(t: &mut VmGreenThread) -> bool {
         }
         2 => {
             // like every erroring arm: self.error = Some(make_error(kind)); return false
-            t.error = Some(u8_mk_err(b >> 3));
+            let kc = if scripted { (sb >> 3) & 3 } else { u8_kind(t.is_main) };
+            t.error = Some(u8_mk_err(kc));
             false
         }
         3 => {
             // like Instr::HostFunc(eff)
-            let eff: u16 = if scripted { b as u16 } else { kani::any() };
+            let eff: u16 = if scripted { sb as u16 } else { u8_eff() };
             t.pending_host_func = Some(eff);
             false
         }
@@ -123,9 +231,10 @@ fn u8_step(t: &mut VmGreenThread) -> bool {
         5 => {
             // ordinary instruction with a stack effect
             if unsafe { U8G.stack_ops } {
-                let v = if scripted { Value(b as u64, ValueTag::Int) } else { hs::any_scalar() };
+                let sub = if scripted { (sb >> 3) & 3 } else { u8_pick(3) };
+                let v = if scripted { Value(sb as u64, ValueTag::Int) } else { u8_value() };
                 let n = t.value_stack.len();
-                match (b >> 3) & 3 {
+                match sub {
                     0 => {
                         if n > 0 {
                             t.value_stack[n - 1] = v;
@@ -150,11 +259,10 @@ fn u8_step(t: &mut VmGreenThread) -> bool {
 }
 
 #[cfg(kani)]
-mod u8s {
+pub(crate) mod u8s {
     use super::hs::*;
     use super::*;
 
-    const MAXK: u32 = 4;
 
     fn kind_code(k: &VmErrorKind) -> u8 {
         match k {
@@ -180,49 +288,45 @@ mod u8s {
             Some(e) => Some(kind_code(&e.kind)),
         }
     }
+    fn runnable(t: &VmGreenThread) -> bool {
+        t.pending_host_func.is_none() && t.error.is_none() && !t.done && t.pending_ffi_call.is_none()
+    }
 
     fn mkbox(shared: &Arc<VmSharedReadonly>, tx: &Sender<Box<VmGreenThread>>) -> Box<VmGreenThread> {
         Box::new(VmGreenThread::new(shared.clone(), tx.clone()))
     }
     /// RI3: runnable | pending host call | errored
     fn any_queue_state(t: &mut VmGreenThread) {
-        let s: u8 = kani::any();
-        kani::assume(s < 3);
+        let s = u8_pick(3);
         if s == 1 {
-            t.pending_host_func = Some(kani::any());
+            t.pending_host_func = Some(7);
         } else if s == 2 {
-            t.error = Some(u8_mk_err(kani::any()));
+            t.error = Some(u8_mk_err(u8_kind(t.is_main)));
         }
     }
 
     pub struct Scen {
         pub rt: Runtime,
-        pub mf: bool, // main already finished (Done was reported earlier)
+        pub mf: bool, // main already finished (Done was reported by an earlier call)
         pub main_id: u64,
-        pub tx: Sender<Box<VmGreenThread>>,
     }
 
-    /// Any Runtime satisfying RI with `nq` queued threads (concrete), main at a symbolic
-    /// position or already finished; `stack1`: main's stack holds one symbolic value.
+    /// Any Runtime satisfying RI with `nq` queued threads (concrete), main at any
+    /// position or already finished; `stack1`: main's stack holds one value.
     pub fn any_runtime(nq: usize, stack1: bool) -> Scen {
         let shared = mk_shared(vec![], vec![]);
         let (tx, rx) = mpsc::channel();
-        let mf: bool = kani::any();
-        let p: usize = kani::any();
-        if nq == 0 {
-            kani::assume(mf);
-        }
-        if !mf {
-            kani::assume(p < nq);
-        }
+        // main position: 0..nq = in the queue, nq = already finished
+        let p = u8_pick(nq as u8 + 1) as usize;
+        let mf = p == nq;
         let mut main_id = 0;
         let mut mk = |i: usize| {
             let mut t = mkbox(&shared, &tx);
-            t.is_main = !mf && p == i;
+            t.is_main = p == i;
             if t.is_main {
                 main_id = t.id;
                 if stack1 {
-                    t.value_stack.push(any_scalar());
+                    t.value_stack.push(u8_value());
                 }
             }
             any_queue_state(&mut t);
@@ -240,7 +344,7 @@ mod u8s {
             f.done = true;
             main_id = f.id;
             if stack1 {
-                let v = any_scalar();
+                let v = u8_value();
                 f.value_stack.push(v);
                 unsafe {
                     U8G.main_top_set = true;
@@ -251,8 +355,9 @@ mod u8s {
         } else {
             None
         };
-        std::mem::forget(shared);
-        Scen { rt: Runtime { run_queue: q, new_threads: rx, finished_main_thread: fin }, mf, main_id, tx }
+        u8_forget(shared);
+        u8_forget(tx);
+        Scen { rt: Runtime { run_queue: q, new_threads: rx, finished_main_thread: fin }, mf, main_id }
     }
 
     /// the main thread, found WITHOUT the code under test
@@ -260,8 +365,9 @@ mod u8s {
         let mut found: Option<&VmGreenThread> = None;
         let mut i = 0;
         while i < rt.run_queue.len() {
-            if rt.run_queue.get(i).unwrap().is_main {
-                found = Some(rt.run_queue.get(i).unwrap());
+            let t = rt.run_queue.get(i).unwrap();
+            if t.is_main {
+                found = Some(t);
             }
             i += 1;
         }
@@ -270,51 +376,36 @@ mod u8s {
             _ => found,
         }
     }
-    fn count_main_in_queue(rt: &Runtime) -> usize {
+    fn count_queue(rt: &Runtime, f: &dyn Fn(&VmGreenThread) -> bool) -> usize {
         let mut n = 0;
         let mut i = 0;
         while i < rt.run_queue.len() {
-            if rt.run_queue.get(i).unwrap().is_main {
+            if f(rt.run_queue.get(i).unwrap()) {
                 n += 1;
             }
             i += 1;
         }
         n
     }
+    fn count_main_in_queue(rt: &Runtime) -> usize {
+        count_queue(rt, &|t| t.is_main)
+    }
     fn any_queue_pending(rt: &Runtime) -> bool {
-        let mut r = false;
-        let mut i = 0;
-        while i < rt.run_queue.len() {
-            if rt.run_queue.get(i).unwrap().pending_host_func.is_some() {
-                r = true;
-            }
-            i += 1;
-        }
-        r
+        count_queue(rt, &|t| t.pending_host_func.is_some()) > 0
     }
     fn any_queue_runnable(rt: &Runtime) -> bool {
-        let mut r = false;
-        let mut i = 0;
-        while i < rt.run_queue.len() {
-            let t = rt.run_queue.get(i).unwrap();
-            if t.pending_host_func.is_none() && t.error.is_none() && !t.done && t.pending_ffi_call.is_none() {
-                r = true;
-            }
-            i += 1;
-        }
-        r
+        count_queue(rt, &|t| runnable(t)) > 0
     }
     fn any_nonmain_error(rt: &Runtime) -> bool {
-        let mut r = false;
-        let mut i = 0;
-        while i < rt.run_queue.len() {
-            let t = rt.run_queue.get(i).unwrap();
-            if !t.is_main && t.error.is_some() {
-                r = true;
-            }
-            i += 1;
-        }
-        r
+        count_queue(rt, &|t| !t.is_main && t.error.is_some()) > 0
+    }
+    #[cfg(not(u8_native))]
+    fn channel_empty(rt: &Runtime) -> bool {
+        rt.new_threads.in_flight() == 0
+    }
+    #[cfg(u8_native)]
+    fn channel_empty(rt: &Runtime) -> bool {
+        rt.new_threads.try_recv().is_err() // only used as the last observation of a run
     }
     /// RI1..RI3 (+ channel drained) as an executable predicate
     pub fn ri_holds(rt: &Runtime) -> bool {
@@ -328,57 +419,69 @@ mod u8s {
                 ok = ok && nm == 1;
             }
         }
-        let mut i = 0;
-        while i < rt.run_queue.len() {
-            let t = rt.run_queue.get(i).unwrap();
-            ok = ok && !t.done && t.pending_ffi_call.is_none() && !(t.pending_host_func.is_some() && t.error.is_some());
-            i += 1;
-        }
-        ok && rt.new_threads.in_flight() == 0
+        ok = ok && count_queue(rt, &|t| t.done || t.pending_ffi_call.is_some() || (t.pending_host_func.is_some() && t.error.is_some())) == 0;
+        ok && channel_empty(rt)
     }
 
-    const BUDGET: u8 = 0;
-    const DONE_IFF: u8 = 1;
-    const ERR: u8 = 2;
-    const PENDING: u8 = 3;
-    const STARVE: u8 = 4;
-    const NOPANIC: u8 = 5;
-    const INV: u8 = 6;
-    const ALL: u8 = 99;
+    /// the status the property demands for a final state; precedence as implemented:
+    /// main done > main pending > main error > any queued thread pending > OutOfSteps
+    /// (RI makes the first three mutually exclusive, so their order is not observable)
+    fn wanted_status(rt: &Runtime, m: &VmGreenThread) -> u8 {
+        if m.done {
+            0
+        } else if m.pending_host_func.is_some() {
+            1
+        } else if let Some(kc) = thread_err_code(m) {
+            10 + kc
+        } else if any_queue_pending(rt) {
+            1
+        } else {
+            2
+        }
+    }
+
+    pub const BUDGET: u8 = 0;
+    pub const DONE_IFF: u8 = 1;
+    pub const ERR: u8 = 2;
+    pub const PENDING: u8 = 3;
+    pub const STARVE: u8 = 4;
+    pub const NOPANIC: u8 = 5;
+    pub const INV: u8 = 6;
 
     /// one call of run_n_steps(k) from any RI state; `c` selects the clause asserted
-    fn scenario(nq: usize, c: u8) {
+    pub fn scenario(nq: usize, c: u8) {
+        u8_reset();
         let mut s = any_runtime(nq, false);
-        let k: u32 = kani::any();
-        kani::assume(k <= MAXK);
+        let k = u8_pick(u8_maxk() + 1) as u32;
         let st = s.rt.run_n_steps(k);
         let code = status_code(&st.kind);
         let steps = unsafe { U8G.steps };
         let stopped = unsafe { U8G.main_stopped };
         let m = main_of(&s.rt);
-        assert!(m.is_some()); // harness sanity
+        assert!(m.is_some(), "harness sanity: a main thread exists");
         let m = m.unwrap();
 
-        if c == BUDGET || c == ALL {
+        if c == BUDGET {
             assert!(st.steps_consumed <= k, "C11 budget: steps_consumed <= k");
             assert!(st.steps_consumed == steps, "C11 budget: steps_consumed == number of step() calls made");
             assert!(!unsafe { U8G.step_while_blocked }, "no instruction is executed on a pending/errored/done thread");
-            kani::cover!(st.steps_consumed == MAXK, "full budget used");
+            kani::cover!(st.steps_consumed == u8_maxk() as u32, "full budget used");
             kani::cover!(st.steps_consumed < k && code == 0, "Done before the budget is used up");
         }
-        if c == DONE_IFF || c == ALL {
+        if c == DONE_IFF {
             assert!((code == 0) == (s.mf || stopped), "C11: Done <=> the main thread has executed Stop");
             if stopped {
                 let f = s.rt.finished_main_thread.as_ref();
                 assert!(f.is_some() && f.unwrap().id == s.main_id && f.unwrap().done, "the stopped main thread is kept as finished_main_thread");
                 assert!(count_main_in_queue(&s.rt) == 0, "... and is no longer queued");
+                assert!(unsafe { U8G.steps_after_main_stop } == 0, "C11: completion is reported as soon as the main thread stops (no instruction of any task runs after it in this call)");
             }
             kani::cover!(code == 0 && any_queue_runnable(&s.rt), "Done while another task is runnable");
             kani::cover!(code == 0 && any_queue_pending(&s.rt), "Done while another task waits for the host");
             kani::cover!(s.mf && st.steps_consumed > 0, "BEHAVIOUR: after Done, a further run_n_steps executes other tasks' instructions");
             kani::cover!(s.mf && st.steps_consumed == 0 && k > 0, "after Done, nothing runnable: executes nothing");
         }
-        if c == ERR || c == ALL {
+        if c == ERR {
             match thread_err_code(m) {
                 Some(kc) => {
                     assert!(code == 10 + kc, "C11: main error => MainThreadError carrying that kind");
@@ -390,30 +493,18 @@ mod u8s {
             kani::cover!(any_nonmain_error(&s.rt) && code == 2, "BEHAVIOUR: an error of a non-main task is not reported (OutOfSteps)");
             kani::cover!(any_nonmain_error(&s.rt) && code == 0, "BEHAVIOUR: an error of a non-main task is not reported (Done)");
         }
-        if c == PENDING || c == ALL {
-            // precedence implemented: main done > main pending > main error > any queued thread pending > OutOfSteps
-            let want = if m.done {
-                0
-            } else if m.pending_host_func.is_some() {
-                1
-            } else if let Some(kc) = thread_err_code(m) {
-                10 + kc
-            } else if any_queue_pending(&s.rt) {
-                1
-            } else {
-                2
-            };
-            assert!(code == want, "C11: status precedence");
+        if c == PENDING {
+            assert!(code == wanted_status(&s.rt, m), "C11: status precedence");
             if m.pending_host_func.is_some() {
                 assert!(code == 1 && !m.done && m.error.is_none(), "main pending => PendingHostFunc (pending excludes done/error)");
             }
             if code == 1 {
-                assert!(any_queue_pending(&s.rt), "PendingHostFunc => some queued thread (reachable through iter_threads_mut) has a pending host call");
+                assert!(any_queue_pending(&s.rt), "PendingHostFunc => a queued thread (reachable through iter_threads_mut) has a pending host call");
             }
             kani::cover!(code == 1 && m.pending_host_func.is_none(), "PendingHostFunc because of a non-main task");
             kani::cover!(code >= 10 && any_queue_pending(&s.rt), "main error wins over another task's pending host call");
         }
-        if c == STARVE || c == ALL {
+        if c == STARVE {
             if code != 0 && st.steps_consumed < k {
                 assert!(!any_queue_runnable(&s.rt), "budget left over only when no queued thread can run");
             }
@@ -422,35 +513,380 @@ mod u8s {
             }
             kani::cover!(code == 1 && st.steps_consumed == 0 && k > 0, "everything blocked: loop exits at once");
         }
-        if c == INV || c == ALL {
-            assert!(ri_holds(&s.rt), "RI is preserved by run_n_steps");
+        if c == INV {
             kani::cover!(s.rt.run_queue.len() > nq, "spawned thread queued");
             kani::cover!(s.rt.run_queue.len() < nq, "finished thread removed");
+            assert!(ri_holds(&s.rt), "RI is preserved by run_n_steps");
         }
         if c == NOPANIC {
-            // oracle = Kani's own panic checks on validate() / main().unwrap() / top()
+            // oracle = the back end's own panic detection on validate() / main().unwrap()
             let _ = s.rt.main();
             kani::cover!(true, "reachable");
         }
-        std::mem::forget(st);
-        std::mem::forget(s);
+        u8_forget(st);
+        u8_forget(s);
     }
 
-    macro_rules! per_len {
-        ($c:expr, $u:expr, $h0:ident, $h1:ident, $h2:ident, $h3:ident) => {
-            #[kani::proof]
-            #[kani::unwind($u)]
-            fn $h0() { scenario(0, $c) }
-            #[kani::proof]
-            #[kani::unwind($u)]
-            fn $h1() { scenario(1, $c) }
-            #[kani::proof]
-            #[kani::unwind($u)]
-            fn $h2() { scenario(2, $c) }
-            #[kani::proof]
-            #[kani::unwind($u)]
-            fn $h3() { scenario(3, $c) }
+    /// C11.top.is_final_value: after Done, Runtime::top() is the last stack slot the main
+    /// thread had when it executed Stop (stack effects of every thread enabled)
+    pub fn top_scenario(nq: usize) {
+        u8_reset();
+        unsafe { U8G.stack_ops = true };
+        let mut s = any_runtime(nq, true);
+        let k = u8_pick(u8_maxk() + 1) as u32;
+        let st = s.rt.run_n_steps(k);
+        let set = unsafe { U8G.main_top_set };
+        if status_code(&st.kind) == 0 && set {
+            let want = unsafe { U8G.main_top };
+            assert!(s.rt.top() == want, "C11: top() after Done is the finished main thread's last stack slot");
+            assert!(s.rt.main().id == s.main_id, "main() after Done is the thread that was main");
+            kani::cover!(count_main_in_queue(&s.rt) == 0, "main found through finished_main_thread");
+        }
+        kani::cover!(status_code(&st.kind) == 0 && !set, "BEHAVIOUR: Done with an empty main stack (top() would panic: void program)");
+        u8_forget(st);
+        u8_forget(s);
+    }
+
+    /// update_status_helper alone on any RI state (no scheduler loop: affordable for CBMC)
+    pub fn status_only(nq: usize) {
+        u8_reset();
+        let s = any_runtime(nq, false);
+        let kind = s.rt.update_status_helper();
+        let code = status_code(&kind);
+        let m = main_of(&s.rt).unwrap();
+        assert!(code == wanted_status(&s.rt, m), "C11: status precedence");
+        assert!((code == 0) == s.mf, "Done <=> main finished");
+        match thread_err_code(m) {
+            Some(kc) => assert!(code == 10 + kc, "main error => MainThreadError(kind)"),
+            None => assert!(code < 10),
+        }
+        kani::cover!(true, "reachable");
+        kani::cover!(code == 1, "pending reachable");
+        kani::cover!(code >= 10, "error reachable");
+        u8_forget(kind);
+        u8_forget(s);
+    }
+
+    /// try_get_main / main / top alone on any RI state (loop-free: affordable for CBMC, all Values)
+    pub fn top_only(nq: usize) {
+        u8_reset();
+        let s = any_runtime(nq, true);
+        let m = main_of(&s.rt).unwrap();
+        let want = *m.value_stack.last().unwrap();
+        assert!(s.rt.main().id == s.main_id, "main() is the main thread, queued or finished");
+        assert!(s.rt.top() == want, "top() is the main thread's last stack slot");
+        if s.mf {
+            assert!(want == unsafe { U8G.main_top }, "harness sanity");
+        }
+        kani::cover!(s.mf, "main found through finished_main_thread");
+        kani::cover!(!s.mf, "main found in the run queue");
+        u8_forget(s);
+    }
+
+    /// smallest loop case (native only: CBMC needed > 19 GB for this ONE-iteration harness and was killed):
+    /// one queued thread in any RI state (main, or a task with main finished), budget <= 1
+    pub fn smoke_body() {
+        u8_reset();
+        unsafe { U8G.allow_spawn = false };
+        let mut s = any_runtime(1, false);
+        let k = u8_pick(2) as u32;
+        let st = s.rt.run_n_steps(k);
+        let code = status_code(&st.kind);
+        let m = main_of(&s.rt).unwrap();
+        assert!(st.steps_consumed <= k && st.steps_consumed == unsafe { U8G.steps }, "budget");
+        assert!(code == wanted_status(&s.rt, m), "status precedence");
+        assert!((code == 0) == (s.mf || unsafe { U8G.main_stopped }), "Done <=> main stopped");
+        kani::cover!(code == 0 && !s.mf, "main stops in this call");
+        kani::cover!(code >= 10, "main error");
+        u8_forget(st);
+        u8_forget(s);
+    }
+
+    /// finish_thread_turn's contract on a non-main thread with ANY flag combination
+    pub fn finish_turn_contract_body() {
+        u8_reset();
+        let mut s = any_runtime(1, false);
+        let shared = mk_shared(vec![], vec![]);
+        let (tx, rx2) = mpsc::channel();
+        let mut t = mkbox(&shared, &tx);
+        t.done = u8_pick(2) == 1;
+        if u8_pick(2) == 1 {
+            t.pending_host_func = Some(u8_eff());
+        }
+        if u8_pick(2) == 1 {
+            t.error = Some(u8_mk_err(u8_pick(4)));
+        }
+        let id = t.id;
+        let done = t.done;
+        let n0 = s.rt.run_queue.len();
+        let r = s.rt.finish_thread_turn(t);
+        assert!(!r, "a non-main thread never ends the run");
+        if done {
+            assert!(s.rt.run_queue.len() == n0, "a done non-main thread is dropped");
+        } else {
+            assert!(s.rt.run_queue.len() == n0 + 1 && s.rt.run_queue.get(n0).unwrap().id == id, "otherwise it is queued at the back");
+        }
+        kani::cover!(done, "done reachable");
+        u8_forget(s);
+        u8_forget(shared);
+        u8_forget(tx);
+        u8_forget(rx2);
+    }
+    /// ... and on the main thread
+    pub fn finish_turn_main_body() {
+        u8_reset();
+        let mut s = any_runtime(1, false);
+        kani::assume(!s.mf);
+        let mut t = s.rt.run_queue.pop_front().unwrap();
+        t.done = u8_pick(2) == 1;
+        let done = t.done;
+        let id = t.id;
+        let r = s.rt.finish_thread_turn(t);
+        assert!(r == done, "finish_thread_turn returns true exactly for a done main thread");
+        if done {
+            assert!(s.rt.run_queue.len() == 0 && s.rt.finished_main_thread.as_ref().unwrap().id == id);
+        } else {
+            assert!(s.rt.run_queue.len() == 1 && s.rt.finished_main_thread.is_none());
+        }
+        kani::cover!(done, "done reachable");
+        u8_forget(s);
+    }
+
+    /// RI holds for Runtime::new
+    pub fn ri_init_body() {
+        u8_reset();
+        let prog = CompiledProgram {
+            instructions: vec![],
+            int_constants: vec![],
+            float_constants: vec![],
+            static_strings: vec![],
+            filename_arena: vec![],
+            function_name_arena: vec![],
+            filename_table: vec![],
+            lineno_table: vec![],
+            function_name_table: vec![],
+        };
+        let rt = Runtime::new(prog);
+        assert!(rt.run_queue.len() == 1 && rt.finished_main_thread.is_none());
+        let t = rt.run_queue.get(0).unwrap();
+        assert!(t.is_main && runnable(t) && t.heap_list.is_empty() && t.value_stack.is_empty());
+        assert!(ri_holds(&rt), "RI holds after Runtime::new");
+        kani::cover!(true, "reachable");
+        u8_forget(rt);
+    }
+
+    /// the real maybe_gc is a no-op on an empty-heap thread (justifies its no-op stand-in
+    /// in the CBMC build; the native build runs the real one everywhere anyway)
+    pub fn gc_neutral_body() {
+        let mut t = mk_thread(mk_shared(vec![], vec![]));
+        t.value_stack.push(u8_value());
+        #[cfg(not(u8_native))]
+        t.maybe_gc_real();
+        #[cfg(u8_native)]
+        t.maybe_gc();
+        assert!(matches!(t.gc_state, GcState::Idle) && t.heap_list.is_empty() && t.gray_stack.is_empty());
+        assert!(t.heap_size == 0 && t.gc_debt == 0 && t.value_stack.len() == 1 && runnable(&t) && t.pc.0 == 0);
+        kani::cover!(true, "reachable");
+        u8_forget(t);
+    }
+
+    // ---------------------------------------------------------------- C10
+    fn one_thread_runtime() -> Runtime {
+        let shared = mk_shared(vec![], vec![]);
+        let (tx, rx) = mpsc::channel();
+        let mut t = mkbox(&shared, &tx);
+        t.is_main = true;
+        t.value_stack.push(Value(0, ValueTag::Int));
+        u8_forget(shared);
+        u8_forget(tx);
+        Runtime { run_queue: VecDeque::from([t]), new_threads: rx, finished_main_thread: None }
+    }
+    struct Obs {
+        pc: u32,
+        code: u8,
+        total: u32,
+        pending: Option<u16>,
+        top: Option<Value>,
+        depth: usize,
+    }
+    fn observe(rt: &Runtime, code: u8, total: u32) -> Obs {
+        let m = main_of(rt).unwrap();
+        Obs { pc: m.pc.0, code, total, pending: m.pending_host_func, top: m.value_stack.last().copied(), depth: m.value_stack.len() }
+    }
+    /// C10.sched.single_thread.split: ONE thread, no spawns, the stub made deterministic by
+    /// a script indexed by the thread's own step counter: budgets k1 then k2 == budget k1+k2
+    pub fn split_scenario() {
+        u8_reset();
+        let mut script = [0u8; 8];
+        let mut i = 0;
+        while i < u8_maxk() as usize {
+            let o = u8_pick(6);
+            let sub = if o == 2 { u8_pick(4) } else if o == 5 { u8_pick(3) } else { 0 };
+            script[i] = o | (sub << 3);
+            i += 1;
+        }
+        let k1 = u8_pick(u8_maxk() + 1) as u32;
+        let k2 = u8_pick(u8_maxk() + 1) as u32;
+        kani::assume(k1 + k2 <= u8_maxk() as u32);
+        // run A: k1 then k2 (the embedder does not touch the runtime in between)
+        u8_arm_script(script);
+        let mut a = one_thread_runtime();
+        let a1 = a.run_n_steps(k1);
+        let a2 = a.run_n_steps(k2);
+        let oa = observe(&a, status_code(&a2.kind), a1.steps_consumed + a2.steps_consumed);
+        let steps_a = unsafe { U8G.steps };
+        // run B: k1 + k2
+        u8_reset();
+        u8_arm_script(script);
+        let mut b = one_thread_runtime();
+        let b1 = b.run_n_steps(k1 + k2);
+        let ob = observe(&b, status_code(&b1.kind), b1.steps_consumed);
+        let steps_b = unsafe { U8G.steps };
+        assert!(oa.pc == ob.pc && steps_a == steps_b && oa.total == ob.total, "C10: same number of instructions executed");
+        assert!(oa.code == ob.code, "C10: same final status (Done / PendingHostFunc / OutOfSteps / MainThreadError(kind))");
+        assert!(oa.pending == ob.pending && oa.top == ob.top && oa.depth == ob.depth, "C10: same thread state (pending call, stack)");
+        // a status other than OutOfSteps is sticky: the second slice executes nothing
+        if status_code(&a1.kind) != 2 {
+            assert!(a2.steps_consumed == 0 && status_code(&a2.kind) == status_code(&a1.kind), "a non-OutOfSteps status is stable under further budget");
+        }
+        kani::cover!(k1 > 0 && k2 > 0 && oa.code == 0, "Done in the second slice");
+        kani::cover!(oa.code == 1, "host call reachable");
+        u8_forget(a1);
+        u8_forget(a2);
+        u8_forget(b1);
+        u8_forget(a);
+        u8_forget(b);
+    }
+
+    /// C10.sched.host_call.blocks_only_caller: a thread with a pending host call gets no
+    /// step, the others are served in queue order; after clear_pending_host_func it runs
+    pub fn host_call_scenario(nq: usize) {
+        u8_reset();
+        let mut s = any_runtime(nq, false);
+        // choose a queued thread that is pending
+        let j = u8_pick(nq as u8) as usize;
+        kani::assume(s.rt.run_queue.get(j).unwrap().pending_host_func.is_some());
+        let pid = s.rt.run_queue.get(j).unwrap().id;
+        let others_runnable = count_queue(&s.rt, &|t| runnable(t));
+        let first_runnable_id = {
+            let mut r = None;
+            let mut i = 0;
+            while i < s.rt.run_queue.len() {
+                let t = s.rt.run_queue.get(i).unwrap();
+                if r.is_none() && runnable(t) {
+                    r = Some(t.id);
+                }
+                i += 1;
+            }
+            r
+        };
+        let k = u8_pick(u8_maxk() + 1) as u32;
+        let st = s.rt.run_n_steps(k);
+        // the caller did not move and is still waiting
+        let mut seen = false;
+        let mut first_moved = false;
+        let mut i = 0;
+        while i < s.rt.run_queue.len() {
+            let t = s.rt.run_queue.get(i).unwrap();
+            if t.id == pid {
+                seen = true;
+                assert!(t.pc.0 == 0 && t.pending_host_func.is_some(), "C10: the waiting thread executes nothing and keeps waiting");
+            }
+            if Some(t.id) == first_runnable_id && t.pc.0 > 0 {
+                first_moved = true;
+            }
+            i += 1;
+        }
+        assert!(seen, "the waiting thread stays queued (reachable through iter_threads_mut)");
+        if k > 0 && others_runnable > 0 {
+            assert!(st.steps_consumed > 0, "C10: a pending host call does not stop the other threads");
+            // the first runnable thread in queue order got the first step (it may have finished and left the queue)
+            let gone = count_queue(&s.rt, &|t| Some(t.id) == first_runnable_id) == 0;
+            assert!(first_moved || gone, "C10: the first runnable thread is served first");
+        }
+        if others_runnable == 0 {
+            assert!(st.steps_consumed == 0, "nothing runnable: nothing executed");
+        }
+        let done1 = status_code(&st.kind) == 0;
+        // the host answers: exactly what abra_cli does (iter_threads_mut + clear_pending_host_func)
+        for t in s.rt.iter_threads_mut() {
+            if t.id == pid {
+                t.clear_pending_host_func();
+            }
+        }
+        let qlen = s.rt.run_queue.len() as u32;
+        let st2 = s.rt.run_n_steps(qlen);
+        let ended_in_2 = !done1 && status_code(&st2.kind) == 0;
+        if !ended_in_2 {
+            // unless the run ended (main stopped) before its turn, the thread ran within one round
+            let moved = count_queue(&s.rt, &|t| t.id == pid && t.pc.0 > 0) > 0;
+            let left = count_queue(&s.rt, &|t| t.id == pid) == 0; // it executed Stop and was dropped
+            assert!(moved || left, "C10: after clear_pending_host_func the thread runs again within one round");
+        }
+        kani::cover!(st.steps_consumed > 0, "others ran while one thread waited");
+        kani::cover!(!ended_in_2, "second round completed without the main thread stopping in it");
+        u8_forget(st);
+        u8_forget(st2);
+        u8_forget(s);
+    }
+
+    /// embedder keeps calling run_n_steps without servicing anything: never a panic, and
+    /// Done / MainThreadError are stable
+    pub fn repeat_scenario(nq: usize) {
+        u8_reset();
+        let mut s = any_runtime(nq, false);
+        let k = u8_pick(3) as u32;
+        let st1 = s.rt.run_n_steps(k);
+        let c1 = status_code(&st1.kind);
+        let st2 = s.rt.run_n_steps(k);
+        let c2 = status_code(&st2.kind);
+        if c1 == 0 {
+            assert!(c2 == 0, "C11: once Done, always Done");
+        }
+        if c1 >= 10 {
+            assert!(c2 == c1, "C11: a main error stays reported (never turns into Done)");
+        }
+        kani::cover!(c1 == 0 && st2.steps_consumed > 0, "BEHAVIOUR: after Done a further call still executes other tasks");
+        assert!(ri_holds(&s.rt));
+        u8_forget(st1);
+        u8_forget(st2);
+        u8_forget(s);
+    }
+
+    macro_rules! harnesses {
+        ($( ($name:ident, $unw:literal, $body:expr) ),* $(,)?) => {
+            $(
+                #[cfg_attr(not(u8_native), kani::proof)]
+                #[cfg_attr(not(u8_native), kani::unwind($unw))]
+                pub fn $name() { $body }
+            )*
+            #[cfg(u8_native)]
+            pub fn native_table() -> Vec<(&'static str, fn())> {
+                vec![ $( (stringify!($name), $name as fn()) ),* ]
+            }
         };
     }
-    per_len!(ALL, 26, all_0, all_1, all_2, all_3);
+    harnesses! {
+        (budget_0, 8, scenario(0, BUDGET)), (budget_1, 12, scenario(1, BUDGET)), (budget_2, 18, scenario(2, BUDGET)), (budget_3, 26, scenario(3, BUDGET)),
+        (done_iff_0, 8, scenario(0, DONE_IFF)), (done_iff_1, 12, scenario(1, DONE_IFF)), (done_iff_2, 18, scenario(2, DONE_IFF)), (done_iff_3, 26, scenario(3, DONE_IFF)),
+        (err_0, 8, scenario(0, ERR)), (err_1, 12, scenario(1, ERR)), (err_2, 18, scenario(2, ERR)), (err_3, 26, scenario(3, ERR)),
+        (pending_0, 8, scenario(0, PENDING)), (pending_1, 12, scenario(1, PENDING)), (pending_2, 18, scenario(2, PENDING)), (pending_3, 26, scenario(3, PENDING)),
+        (starve_0, 8, scenario(0, STARVE)), (starve_1, 12, scenario(1, STARVE)), (starve_2, 18, scenario(2, STARVE)), (starve_3, 26, scenario(3, STARVE)),
+        (nopanic_0, 8, scenario(0, NOPANIC)), (nopanic_1, 12, scenario(1, NOPANIC)), (nopanic_2, 18, scenario(2, NOPANIC)), (nopanic_3, 26, scenario(3, NOPANIC)),
+        (inv_0, 8, scenario(0, INV)), (inv_1, 12, scenario(1, INV)), (inv_2, 18, scenario(2, INV)), (inv_3, 26, scenario(3, INV)),
+        (top_0, 8, top_scenario(0)), (top_1, 12, top_scenario(1)), (top_2, 18, top_scenario(2)), (top_3, 26, top_scenario(3)),
+        (repeat_1, 12, repeat_scenario(1)), (repeat_2, 18, repeat_scenario(2)), (repeat_3, 26, repeat_scenario(3)),
+        (host_call_1, 12, host_call_scenario(1)), (host_call_2, 18, host_call_scenario(2)), (host_call_3, 26, host_call_scenario(3)),
+        (split, 12, split_scenario()),
+        (status_only_0, 6, status_only(0)), (status_only_1, 6, status_only(1)), (status_only_2, 6, status_only(2)), (status_only_3, 6, status_only(3)),
+        (finish_turn_contract, 6, finish_turn_contract_body()), (finish_turn_main, 6, finish_turn_main_body()),
+        (ri_init, 6, ri_init_body()), (gc_neutral, 6, gc_neutral_body()),
+        (top_only_0, 6, top_only(0)), (top_only_1, 6, top_only(1)), (top_only_2, 6, top_only(2)), (top_only_3, 6, top_only(3)),
+        (smoke, 3, smoke_body()),
+    }
+}
+
+#[cfg(u8_native)]
+pub fn u8_native_table() -> Vec<(&'static str, fn())> {
+    u8s::native_table()
 }
